@@ -176,6 +176,10 @@ fn serde_props(_v: &mut Vec<Prop>) {}
 
 fn main() {
     let args: Vec<String> = std::env::args().collect();
+    if args.len() >= 3 && args[1] == "--cold" {
+        // cold-start probe (props/cold.rs): nothing of the library has run in this process yet
+        std::process::exit(props::cold::child_main(&args[2..]));
+    }
     if args.len() < 3 {
         eprintln!("usage: vcheck <ID> <quick|thorough> | vcheck <ID> --replay <file>");
         std::process::exit(2);
